@@ -953,7 +953,8 @@ def nmea_frame(rng):
 
 
 def rtcm_frame(rng, n=None):
-    n = rng.choice([0, 0, 1, 8, 19, 40, 200]) if n is None else n
+    # sizes on both sides of every bit of the 10-bit length field (the two high bits live in byte 1)
+    n = rng.choice([0, 0, 1, 8, 19, 40, 40, 200, 200, 255, 256, 300, 511, 512, 777, 1023]) if n is None else n
     pl = bytes(rng.getrandbits(8) for _ in range(n))
     if n >= 2:
         pl = bytes([0x3e, 0xd0]) + pl[2:]          # message type 1005
@@ -1566,7 +1567,7 @@ def check_C11(ctx):
                 pr = uh.protocol(bytes.fromhex(it[1]))
             except Exception as e:  # noqa
                 pr = canon.excname(e)
-            if pr != bit[it[0]]:
+            if pr != bit.get(it[0]):
                 res.finding("class=protocol-helper-disagrees", f"protocol() says {pr} for an item dispatched as {it[0]}", dict(raw=it[1]))
     samples = [dict(stream=s.hex()[:80]) for s in streams[:3]]
     return res.finish("distinct (stream, mask, parsing): 8 masks × 2 parsing settings over clean and garbage streams", samples)
@@ -2072,8 +2073,8 @@ def attr_slots(ent):
             if isinstance(v, tuple):
                 if v[0] in gen.BITTYPES:
                     for f, ft in v[1].items():
-                        if f[0:8] != "reserved":
-                            out.append((f, "flag", ft, None, depth))
+                        # reserved bit groups are fields too: the generator reads them from the keywords
+                        out.append((f, "rflag" if f[0:8] == "reserved" else "flag", ft, None, depth))
                 else:
                     walk(v[1], depth + 1)
             elif k[0:3] == "_HP":
